@@ -13,9 +13,12 @@ In the model the only behavioural differences of `InMemory` are
 everywhere in the LSM tree and the `inMemory` option cleared. The simulation theorem is
 `C37_same_reads`: if an in-memory and an on-disk database agree up to `norm`, then after the
 same operation (accepted — or rejected — in both modes, for `set`) they still agree up to
-`norm`, and `get` answers agree up to the value-pointer bit. Proved for begin / set / get /
-commit / discard / flush / clock / discard-timestamp steps; `compact` and `iter` steps are
-stated (`C37_same_reads_compactStatement`) — see the end of the file.
+`norm`, and `Get`, `DB.get` and iterator answers agree up to the value-pointer bit
+(`C37_same_get`); `C37_same_reads_run` lifts it to operation sequences. Covered operations:
+begin / set / get / iterate / commit / discard / flush / compact / clock / discard timestamp /
+DropPrefix. NOT covered: `DropAll`, after which the in-memory database runs with threshold
+MaxInt32 (`db.threshold.Clear`, finding F18), so the two modes genuinely diverge in their size
+accounting.
 -/
 namespace Badger
 
@@ -330,7 +333,7 @@ def commitStage (d : Db) (t : TxnM) (mts : Nat) : Db :=
 theorem commitApply_stage (d : Db) (t : TxnM) (id mts : Nat) :
     commitApply d t id mts =
       ((({ commitStage d t mts with lsm := { (commitStage d t mts).lsm with
-          mem := (((d.doneRead t).2.pending ++ (d.doneRead t).2.dups).map
+          mem := (((d.doneRead t).2.dups ++ (d.doneRead t).2.pending).map
             (finEnt (commitStage d t mts) (keepTogetherOf t)
               (if (if (d.doneRead t).1.opts.managed then (d.doneRead t).1 else (d.doneRead t).1.cleanup).opts.managed
                then mts else (if (d.doneRead t).1.opts.managed then (d.doneRead t).1 else (d.doneRead t).1.cleanup).nextTs))).foldl
@@ -556,11 +559,11 @@ theorem flush_eraseVP (s : Lsm) (id : Nat) : (s.flush id).eraseVP = s.eraseVP.fl
 
 theorem merge2_eraseL (a b : List Ent) : merge2 (eraseL a) (eraseL b) = eraseL (merge2 a b) := by
   fun_induction merge2 a b with
-  | case1 ys => simp [eraseL, merge2]
+  | case1 ys => simp [eraseL]
   | case2 xs h => 
     cases xs with
-    | nil => simp [eraseL, merge2]
-    | cons x xs => simp [eraseL, merge2]
+    | nil => simp [eraseL]
+    | cons x xs => simp [eraseL]
   | case3 x xs y ys h ih =>
     simp only [eraseL, List.map_cons] at ih ⊢
     rw [merge2, entCmp_eraseVP, h]
@@ -714,9 +717,287 @@ theorem iterReads_eraseL (seek : Option Bytes) (items : List Ent) :
   simp [iterReads, eraseL]
 
 
-/-- operations covered by the simulation proof (everything except `compact`) -/
+
+/-! ## compaction commutes with `eraseVP` -/
+
+theorem smallest_eraseVP (t : Tbl) : t.eraseVP.smallest = t.smallest.map Ent.eraseVP := by
+  simp [Tbl.smallest, Tbl.eraseVP, eraseL, List.head?_map]
+
+theorem zipIdx_map {α β : Type} (f : α → β) (l : List α) :
+    zipIdx (l.map f) = (zipIdx l).map (fun p => (p.1, f p.2)) := by
+  simp only [zipIdx, List.length_map]
+  rw [List.zip_map_right]
+  rfl
+
+theorem pickIdx_map {α β : Type} (f : α → β) (l : List α) (idx : List Nat) :
+    pickIdx (l.map f) idx = (pickIdx l idx).map f := by
+  unfold pickIdx
+  induction idx with
+  | nil => rfl
+  | cons i is ih =>
+    simp only [List.filterMap_cons]
+    rw [ih, List.getElem?_map]
+    cases l[i]? with
+    | none => rfl
+    | some x => rfl
+
+theorem removeIdx_map {α β : Type} (f : α → β) (l : List α) (idx : List Nat) :
+    removeIdx (l.map f) idx = (removeIdx l idx).map f := by
+  unfold removeIdx
+  rw [zipIdx_map, List.filter_map, List.map_map, List.map_map]
+  rfl
+
+theorem getD_map_levels (levels : List (List Tbl)) (i : Nat) :
+    (levels.map (·.map Tbl.eraseVP)).getD i [] = (levels.getD i []).map Tbl.eraseVP := by
+  simp only [List.getD_eq_getElem?_getD, List.getElem?_map]
+  cases levels[i]? <;> rfl
+
+theorem hasBit_eraseVP_merge (e : Ent) : hasBit e.eraseVP.emeta bitMerge = hasBit e.emeta bitMerge := by
+  have := hasBit_clearVP e.emeta 3 (by decide)
+  simpa [Ent.eraseVP, bitMerge] using this
+
+theorem hasBit_eraseVP_discard (e : Ent) :
+    hasBit e.eraseVP.emeta bitDiscardEarlier = hasBit e.emeta bitDiscardEarlier := by
+  have := hasBit_clearVP e.emeta 2 (by decide)
+  simpa [Ent.eraseVP, bitDiscardEarlier] using this
+
+theorem filtStep_eraseVP (p : CParams) (st : FState) (e : Ent) :
+    filtStep p st e.eraseVP = filtStep p st e := by
+  unfold filtStep
+  rw [eraseVP_key, eraseVP_ver, eraseVP_dead, hasBit_eraseVP_merge, hasBit_eraseVP_discard]
+
+theorem filtRun_eraseL (p : CParams) (st : FState) (es : List Ent) :
+    filtRun p st (eraseL es) = eraseL (filtRun p st es) := by
+  induction es generalizing st with
+  | nil => rfl
+  | cons e es ih =>
+    simp only [eraseL, List.map_cons, filtRun, filtStep_eraseVP] at ih ⊢
+    cases (filtStep p st e).2 <;> simp [ih]
+
+theorem splitSizes_eraseL (ns : List Nat) (es : List Ent) :
+    splitSizes ns (eraseL es) = (splitSizes ns es).map (·.map Tbl.eraseVP) := by
+  induction ns generalizing es with
+  | nil => cases es <;> rfl
+  | cons n ns ih =>
+    unfold splitSizes
+    have hl : (eraseL es).length = es.length := by simp [eraseL]
+    rw [hl]
+    by_cases h : (n == 0) = true ∨ es.length < n
+    · simp only [h, if_true]; rfl
+    · simp only [h, if_false]
+      have hd : (eraseL es).drop n = eraseL (es.drop n) := by simp [eraseL, List.map_drop]
+      have ht : (eraseL es).take n = eraseL (es.take n) := by simp [eraseL, List.map_take]
+      rw [hd, ih, ht]
+      cases splitSizes ns (es.drop n) <;> rfl
+
+theorem withIds_eraseVP (ts : List Tbl) (ids : List Nat) :
+    withIds (ts.map Tbl.eraseVP) ids = (withIds ts ids).map Tbl.eraseVP := by
+  induction ts generalizing ids with
+  | nil => cases ids <;> rfl
+  | cons t ts ih =>
+    cases ids with
+    | nil => rfl
+    | cons i is =>
+      simp only [List.map_cons, withIds, ih]
+      rfl
+
+theorem insertBySmallest_eraseVP (t : Tbl) (l : List Tbl) :
+    insertBySmallest t.eraseVP (l.map Tbl.eraseVP) = (insertBySmallest t l).map Tbl.eraseVP := by
+  induction l with
+  | nil => rfl
+  | cons x xs ih =>
+    simp only [List.map_cons, insertBySmallest, smallest_eraseVP]
+    cases ht : t.smallest with
+    | none => simp [ih]
+    | some a =>
+      cases hx : x.smallest with
+      | none => simp [ih]
+      | some b =>
+        simp only [Option.map_some, entCmp_eraseVP]
+        by_cases h : (entCmp b a == Ordering.lt) = true
+        · simp [h, ih]
+        · simp [h]
+
+theorem sortBySmallest_eraseVP (l : List Tbl) :
+    sortBySmallest (l.map Tbl.eraseVP) = (sortBySmallest l).map Tbl.eraseVP := by
+  unfold sortBySmallest
+  induction l with
+  | nil => rfl
+  | cons t ts ih =>
+    simp only [List.map_cons, List.foldr_cons, ih, insertBySmallest_eraseVP]
+
+
+theorem tblOverlaps_eraseVP (lo hi : Ent) (t : Tbl) :
+    tblOverlaps lo.eraseVP hi.eraseVP t.eraseVP = tblOverlaps lo hi t := by
+  unfold tblOverlaps
+  rw [smallest_eraseVP, biggest_eraseVP]
+  cases t.smallest <;> cases t.biggest <;> rfl
+
+theorem foldl_min_eraseVP (ss : List Ent) (s : Ent) :
+    (ss.map Ent.eraseVP).foldl (fun a x => if entCmp x a == .lt then x else a) s.eraseVP =
+      (ss.foldl (fun a x => if entCmp x a == .lt then x else a) s).eraseVP := by
+  induction ss generalizing s with
+  | nil => rfl
+  | cons x xs ih =>
+    simp only [List.map_cons, List.foldl_cons, entCmp_eraseVP]
+    by_cases h : (entCmp x s == Ordering.lt) = true
+    · simp only [h, if_true]; exact ih x
+    · simp only [h]; exact ih s
+
+theorem foldl_max_eraseVP (ss : List Ent) (s : Ent) :
+    (ss.map Ent.eraseVP).foldl (fun a x => if entCmp x a == .gt then x else a) s.eraseVP =
+      (ss.foldl (fun a x => if entCmp x a == .gt then x else a) s).eraseVP := by
+  induction ss generalizing s with
+  | nil => rfl
+  | cons x xs ih =>
+    simp only [List.map_cons, List.foldl_cons, entCmp_eraseVP]
+    by_cases h : (entCmp x s == Ordering.gt) = true
+    · simp only [h, if_true]; exact ih x
+    · simp only [h]; exact ih s
+
+theorem filterMap_smallest_eraseVP (ts : List Tbl) :
+    (ts.map Tbl.eraseVP).filterMap (·.smallest) = (ts.filterMap (·.smallest)).map Ent.eraseVP := by
+  induction ts with
+  | nil => rfl
+  | cons t ts ih =>
+    simp only [List.map_cons, List.filterMap_cons, smallest_eraseVP]
+    cases t.smallest <;> simp [ih]
+
+theorem filterMap_biggest_eraseVP (ts : List Tbl) :
+    (ts.map Tbl.eraseVP).filterMap (·.biggest) = (ts.filterMap (·.biggest)).map Ent.eraseVP := by
+  induction ts with
+  | nil => rfl
+  | cons t ts ih =>
+    simp only [List.map_cons, List.filterMap_cons, biggest_eraseVP]
+    cases t.biggest <;> simp [ih]
+
+theorem keyRangeOf_eraseVP (ts : List Tbl) :
+    keyRangeOf (ts.map Tbl.eraseVP) = (keyRangeOf ts).map (fun p => (p.1.eraseVP, p.2.eraseVP)) := by
+  unfold keyRangeOf
+  rw [filterMap_smallest_eraseVP, filterMap_biggest_eraseVP]
+  cases ts.filterMap (·.smallest) with
+  | nil => rfl
+  | cons s ss =>
+    cases ts.filterMap (·.biggest) with
+    | nil => rfl
+    | cons b bs =>
+      simp only [List.map_cons, foldl_min_eraseVP, foldl_max_eraseVP, Option.map_some]
+      rfl
+
+theorem checkOverlap_eraseVP (s : Lsm) (tables : List Tbl) (lev : Nat) :
+    checkOverlap s.eraseVP (tables.map Tbl.eraseVP) lev = checkOverlap s tables lev := by
+  unfold checkOverlap
+  rw [keyRangeOf_eraseVP]
+  cases keyRangeOf tables with
+  | none => rfl
+  | some p =>
+    obtain ⟨lo, hi⟩ := p
+    simp only [Option.map_some, Lsm.eraseVP, zipIdx_map, List.any_map]
+    have hc : (tblOverlaps lo.eraseVP hi.eraseVP ∘ Tbl.eraseVP) = tblOverlaps lo hi := by
+      funext t; exact tblOverlaps_eraseVP lo hi t
+    congr 1
+    funext q
+    simp only [Function.comp, List.any_map, hc]
+
+/-- `keepTable`: a bottom table entirely inside a dropped prefix is not iterated -/
+def keepTableP (dp : List Bytes) (t : Tbl) : Bool :=
+  !(dp.any (fun p => match t.smallest, t.biggest with
+    | some a, some b => p.isPrefixOf a.key && p.isPrefixOf b.key
+    | _, _ => false))
+
+theorem keepTableP_eraseVP (dp : List Bytes) (t : Tbl) : keepTableP dp t.eraseVP = keepTableP dp t := by
+  unfold keepTableP
+  rw [smallest_eraseVP, biggest_eraseVP]
+  cases t.smallest <;> cases t.biggest <;> rfl
+
+/-- the merged input of a compaction -/
+def compactMerged (s : Lsm) (cd : CompactDef) : List Ent :=
+  let tops := pickIdx (s.levels.getD cd.thisLevel []) cd.top
+  let bots := pickIdx (s.levels.getD cd.nextLevel []) cd.bot
+  let validBots := bots.filter (keepTableP cd.dropPrefixes)
+  let topSrcs := if cd.thisLevel == 0 then tops.reverse.map (·.ents) else tops.map (·.ents)
+  mergeAll (topSrcs ++ [(validBots.map (·.ents)).flatten])
+
+def compactOverlap (s : Lsm) (cd : CompactDef) : Bool :=
+  cd.thisLevel == 0 && cd.nextLevel == 0 ||
+  checkOverlap s (pickIdx (s.levels.getD cd.thisLevel []) cd.top ++
+    pickIdx (s.levels.getD cd.nextLevel []) cd.bot) (cd.nextLevel + 1)
+
+theorem compactOutput_eq (s : Lsm) (cd : CompactDef) (dts nk now : Nat) :
+    compactOutput s cd dts nk now =
+      (subcompact { discardTs := dts, numKeep := nk, hasOverlap := compactOverlap s cd, now := now,
+                    dropPrefixes := cd.dropPrefixes } (compactMerged s cd), compactOverlap s cd) := by
+  unfold compactOutput compactMerged compactOverlap keepTableP
+  rfl
+
+theorem compactMerged_eraseVP (s : Lsm) (cd : CompactDef) :
+    compactMerged s.eraseVP cd = eraseL (compactMerged s cd) := by
+  unfold compactMerged
+  have hl : s.eraseVP.levels = s.levels.map (·.map Tbl.eraseVP) := rfl
+  simp only [hl, getD_map_levels, pickIdx_map]
+  have hf : ∀ l : List Tbl, (l.map Tbl.eraseVP).filter (keepTableP cd.dropPrefixes) =
+      (l.filter (keepTableP cd.dropPrefixes)).map Tbl.eraseVP := by
+    intro l
+    rw [List.filter_map]
+    congr 1
+    apply List.filter_congr
+    intro t _
+    exact keepTableP_eraseVP _ t
+  have hsrc : ∀ (l : List Tbl), (l.map Tbl.eraseVP).map (·.ents) = (l.map (·.ents)).map eraseL := by
+    intro l; simp only [List.map_map]; rfl
+  rw [hf, ← mergeAll_eraseL, List.map_append, List.map_cons, List.map_nil, eraseL_flatten,
+    ← List.map_reverse, hsrc, hsrc, hsrc]
+  congr 2
+  split <;> simp [List.map_reverse]
+
+theorem compactOverlap_eraseVP (s : Lsm) (cd : CompactDef) :
+    compactOverlap s.eraseVP cd = compactOverlap s cd := by
+  unfold compactOverlap
+  have hl : s.eraseVP.levels = s.levels.map (·.map Tbl.eraseVP) := rfl
+  simp only [hl, getD_map_levels, pickIdx_map, ← List.map_append]
+  rw [checkOverlap_eraseVP s _ _]
+
+theorem compactOutput_eraseVP (s : Lsm) (cd : CompactDef) (dts nk now : Nat) :
+    compactOutput s.eraseVP cd dts nk now =
+      (eraseL (compactOutput s cd dts nk now).1, (compactOutput s cd dts nk now).2) := by
+  rw [compactOutput_eq, compactOutput_eq, compactMerged_eraseVP, compactOverlap_eraseVP]
+  simp only [subcompact, filtRun_eraseL]
+
+
+theorem set_map_levels (levels : List (List Tbl)) (i : Nat) (l : List Tbl) :
+    (levels.map (·.map Tbl.eraseVP)).set i (l.map Tbl.eraseVP) =
+      (levels.set i l).map (·.map Tbl.eraseVP) := by
+  rw [List.map_set]
+
+theorem compact_eraseVP (s : Lsm) (cd : CompactDef) (dts nk now : Nat) :
+    s.eraseVP.compact cd dts nk now = (s.compact cd dts nk now).map Lsm.eraseVP := by
+  unfold Lsm.compact
+  rw [compactOutput_eraseVP]
+  simp only [splitSizes_eraseL]
+  cases splitSizes cd.outSizes (compactOutput s cd dts nk now).1 with
+  | none => rfl
+  | some nt =>
+    have hl : s.eraseVP.levels = s.levels.map (·.map Tbl.eraseVP) := rfl
+    simp only [Option.map_some, withIds_eraseVP, hl, getD_map_levels, removeIdx_map,
+      ← List.map_append, sortBySmallest_eraseVP, set_map_levels]
+    split <;> rfl
+
+theorem norm_step_compact (d : Db) (cd : CompactDef) :
+    (d.step (.compact cd)).norm = (d.norm.step (.compact cd)).norm := by
+  simp only [Db.step]
+  have h : d.norm.lsm.compact cd d.norm.discardAtOrBelow d.norm.opts.numKeep d.norm.now =
+      (d.lsm.compact cd d.discardAtOrBelow d.opts.numKeep d.now).map Lsm.eraseVP :=
+    compact_eraseVP d.lsm cd _ _ _
+  rw [h]
+  cases d.lsm.compact cd d.discardAtOrBelow d.opts.numKeep d.now with
+  | none => exact (norm_idem d).symm
+  | some l =>
+    simp only [Option.map_some]
+    show ({ d with lsm := l } : Db).norm = ({ d.norm with lsm := l.eraseVP } : Db).norm
+    simp only [Db.norm, Lsm.eraseVP_idem]
+
+/-- operations covered by the simulation proof (everything except `DropAll`) -/
 def Op.covered : Op → Bool
-  | .compact _ => false
   | .dropAll => false    -- in memory `DropAll` also resets the threshold (finding F18)
   | _ => true
 
@@ -770,7 +1051,7 @@ theorem C37_step_norm (d : Db) (op : Op) (hc : op.covered = true)
     rw [norm_cleanup]
     congr 1
     simp [Db.norm, Lsm.eraseVP_idem]
-  | compact cd => cases hc
+  | compact cd => exact norm_step_compact d cd
   | dropAll => cases hc
   | dropPrefix n =>
     clear hc hset
@@ -835,12 +1116,6 @@ theorem C37_same_reads_run (dI dD : Db) (ops : List Op) (h : dI.norm = dD.norm)
     obtain ⟨hc, hset, ha'⟩ := ha
     simp only [Db.run, List.foldl_cons]
     exact ih _ _ (C37_same_reads dI dD op h hD hc hset) (by rw [(step_opts dD op).2]; exact hD) ha'
-
-/-- the compaction step of the simulation (full statement; see `C37_compact_norm` below if
-    present, otherwise this part is open): compaction reads only keys, versions, expiry and
-    the delete / merge / discard-earlier bits, never the value-pointer bit. -/
-def C37_same_reads_compactStatement : Prop :=
-  ∀ (d : Db) (cd : CompactDef), (d.step (.compact cd)).norm = (d.norm.step (.compact cd)).norm
 
 -- non-vacuity: the same history in both modes (value of 3 bytes, threshold 2: a pointer on
 -- disk, inline in memory — and a threshold large enough for the in-memory `set` to be accepted
